@@ -192,6 +192,16 @@ add(property='C13', id='C13-caller-arrays', status='fixed', commit='7e803d3', cl
                           {'call': 'spot', 'a': 0, 'b': 0, 'h': 0.0, 'px': 0.0, 'py': 0.0},
                           {'call': 'trace', 'a': 0, 'b': 1, 'h': 0.5, 'px': 0.0, 'py': 0.0}], 'repeat': [0]})
 
+add(property='C20', id='C20-image-surface-dropped', status='fixed', commit='0853a40', clause='radii',
+    what='fixed: property=C20 0853a40 the Zemax reader dropped the last SURF block of every file (the image surface) and '
+         'substituted a default plane: a curved image lost its radius/conic',
+    reproducer={'mode': 'SEQ', 'ap': ['ENPD', 5.0], 'ftype': 0, 'fields_y': [0.0, 5.0], 'wls': [0.55], 'prim': 0,
+                'stop': 0, 'obj_inf': True, 'obj_t': 100.0, 'img_curv': -0.01, 'fmt': 'g', 'enc': 'utf-8', 'gcat': None,
+                'surfs': [{'type': 'STANDARD', 'curv': 0.02, 'disz': 4.0, 'conic': 0.0, 'parms': [0.0] * 8,
+                           'glass': {'name': 'ZQX11W', 'known': False, 'nd': 1.6, 'vd': 50.0}},
+                          {'type': 'STANDARD', 'curv': -0.02, 'disz': 45.0, 'conic': 0.0, 'parms': [0.0] * 8,
+                           'glass': None}]})
+
 for _e in F:
     if _e['id'] == 'C13-caller-arrays':
         _e['reproducer']['spec']['fields'][1].update(vx=0.2, vy=0.3)
